@@ -85,6 +85,7 @@ func streamRgl(o opts) {
 		var log []string
 		total := 3 + r.Intn(6)
 		hot := r.Intn(3) // most calls target one name so that they collide
+		regFirstTy := 1
 		spawn := func() {
 			id := len(threads)
 			th := &rglThread{id: id}
@@ -105,7 +106,15 @@ func streamRgl(o opts) {
 			var op *toks
 			var fn func()
 			c := r.Intn(100)
-			if t%3 == 1 { // teardown-heavy flavour: CloseAll / Remove racing re-creation of one name
+			if t%5 == 2 { // typed-registration flavour: one RegisterCache completes first, then GetCache callers of that type race the first creation
+				ni, name, valid, cfg = hot, names[hot], true, good
+				if id == 0 {
+					c = 0
+				} else if r.Intn(5) != 0 {
+					c, ty = 20, regFirstTy
+				}
+			}
+			if t%3 == 1 && t%5 != 2 { // teardown-heavy flavour: CloseAll / Remove racing re-creation of one name
 				ni, name, valid, cfg = hot, names[hot], true, good
 				ty = 1
 				switch x := r.Intn(100); {
@@ -122,6 +131,10 @@ func streamRgl(o opts) {
 			switch {
 			case c < 15:
 				rt := r.Intn(4)
+				if t%5 == 2 && id == 0 {
+					rt = 1 + r.Intn(3)
+					regFirstTy = rt
+				}
 				th.kind = 1
 				op = ints(10, 1, int64(ni), int64(rt)).B(valid)
 				fn = func() { th.err = regRegister(mg, name, rt, cfg) }
@@ -159,13 +172,17 @@ func streamRgl(o opts) {
 			log = append(log, fmt.Sprintf("spawn%d%v", id, *op))
 			m.count(fmt.Sprintf("kind%d", th.kind))
 		}
-		for i := 0; i < 2+r.Intn(2); i++ {
+		for i, n := 0, 2+r.Intn(2); i < n; i++ {
 			spawn()
+			if t%5 == 2 {
+				break
+			}
 		}
 		lostRace, overlap := false, false
 		steps := 0
 		for steps < 600 {
-			if len(threads) < total && r.Intn(6) == 0 {
+			regPending := t%5 == 2 && !threads[0].done
+			if len(threads) < total && !regPending && (r.Intn(6) == 0 || (t%5 == 2 && len(threads) < 3)) {
 				spawn()
 				continue
 			}
@@ -243,8 +260,17 @@ func streamRgl(o opts) {
 			}
 			// visible state
 			cs, regs, lk := mg.VerifState()
+			closerStarted := false
+			for _, x := range threads {
+				if (x.kind == 4 || x.kind == 5) && (x.at != 0 || x.done) {
+					closerStarted = true
+				}
+			}
 			for _, n := range names {
 				if c, ok := cs[n]; ok {
+					if !closerStarted && isClosedCache(c) {
+						m.violate("C17", fmt.Sprintf("rgl trace %d: the instance registered under %q is closed although no Remove or CloseAll has started: callers of this name receive a dead cache (schedule %v t%d@%d)", t, n, log, th.id, p), fmt.Sprint(t))
+					}
 					obs.I(number(c))
 				} else {
 					obs.I(0)
